@@ -944,6 +944,8 @@ func TestVerifC09Verify(t *testing.T) {
 				match0, match1 := true, true
 				detail := ""
 				var badCols []uint64
+				rawAgrees, rawLegal := 0, 0
+				_ = rawAgrees
 				cols := map[uint64]bool{}
 				for c := range s0.Int {
 					cols[c] = true
@@ -969,6 +971,13 @@ func TestVerifC09Verify(t *testing.T) {
 					if exists != e0 || (exists && val != w0) {
 						match0 = false
 						badCols = append(badCols, c)
+						// what do the stored bits themselves say (read with a fixed generous depth)?
+						if raw, rex := pilosa.VerifRawBSI(fld, c, 16); rex == exists && (raw == val || !exists) {
+							rawAgrees++
+						} else if (rex == e0 && (!rex || raw == w0)) || (rex == e1 && (!rex || raw == w1)) {
+							rawLegal++
+							detail += fmt.Sprintf("[col %d: stored bits hold (%d,%v), a legal value, but the field reads them as (%d,%v)] ", c, raw, rex, val, exists)
+						}
 						detail += fmt.Sprintf("col %d reads (%d,%v), acked state has (%d,%v), acked+inflight has (%d,%v); ", c, val, exists, w0, e0, w1, e1)
 					}
 					if exists != e1 || (exists && val != w1) {
@@ -990,7 +999,10 @@ func TestVerifC09Verify(t *testing.T) {
 							}
 						}
 					}
-					if confined {
+					if rawLegal > 0 {
+						// the bits on disk are a legal state but the field misreads them (e.g. stale bit depth / base in the meta file)
+						fail("int-misread:inflight="+inflight, fmt.Sprintf("int field shard %d: %s", sh, detail))
+					} else if confined {
 						fail("partial-int-write:inflight="+inflight, fmt.Sprintf("int field shard %d holds a value never written: %s", sh, detail))
 					} else {
 						fail(fmt.Sprintf("int-value-lost:inflight=%s:last-acked=%s", inflight, lastKind("v")), fmt.Sprintf("int field shard %d: %s", sh, detail))
